@@ -419,9 +419,10 @@ func c13R5(c *Ctx) {
 			if i == nil {
 				continue
 			}
-			op, x, y, ok := cmpFact(normFact(fact{V: i.Cond, Pol: true}))
-			if ok && op == token.GTR && sameValue(x, n) && isConstIntV(0)(y) {
-				nz = b.Succs[0]
+			for k := 0; k < 2; k++ {
+				if factPositive(edgeFactsTo(b, b.Succs[k]), isValue(n)) {
+					nz = b.Succs[k]
+				}
 			}
 		}
 		if nz == nil {
@@ -533,16 +534,16 @@ func varName(v ssa.Value) string {
 	v = strip(v)
 	switch x := v.(type) {
 	case *ssa.Parameter:
-		return x.Name()
+		return paramName(x)
 	case *ssa.FreeVar:
-		return x.Name()
+		return freeVarName(x)
 	case *ssa.UnOp:
 		if x.Op == token.MUL {
 			switch a := x.X.(type) {
 			case *ssa.FreeVar:
-				return a.Name()
+				return freeVarName(a)
 			case *ssa.Alloc:
-				return a.Comment
+				return allocName(a)
 			}
 		}
 	}
